@@ -104,6 +104,10 @@ def step (st : Option Req) (line : String) : Option Req × String :=
         | some (sc, nl, rest) => (st, "ok " ++ showStr sc ++ " " ++ showStr nl ++ " " ++ showStr rest)
         | none => (st, "err"))
      | none => (st, "bad-op"))
+  | ["normrest", sc, rest] =>
+    (match strField sc, strField rest with
+     | some a, some b => (st, showStr (normRestPy a b))
+     | _, _ => (st, "bad-op"))
   | ["reset"] => (none, "ok")
   | _ => (st, "bad-op")
 
